@@ -185,3 +185,18 @@ Theorem C16_store_invariant : forall T qs w sched cw n H0,
   InvS (Gl (w_log (cw_w cw) ++ H0)) (Pl (w_log (cw_w cw) ++ H0)) (w_store (cw_w cw)).
 Proof. intros T qs w sched cw n H0 HI Hrun. exact (proj1 (concurrent_provenance T qs w sched cw n H0 HI Hrun)). Qed.
 Print Assumptions C16_store_invariant.
+
+(* the effect trees this property is stated about — which store / origin / clock operations happen, in which order, under
+   which conditions, and what every path returns — are those /verif/translate derives from the Go source on this run
+   (Generated/SrcEffects.v; equal up to the extensional equality of continuations, ProgEq.peq, which [run] respects) *)
+From HC.Generated Require Import SrcEffects.
+From HC.Proofs Require Import ProgEq TieEffects.
+Theorem C16_source_effects :
+  (forall q, peq (src_round_trip q) (round_trip q)) /\
+  (forall q k, peq (src_handle_unrecognized_method q k) (handle_unrecognized_method q k)) /\
+  (forall q k refs i, peq (src_handle_cache_miss q k refs i) (handle_cache_miss q k refs i)) /\
+  (forall q e k refs i, peq (src_handle_cache_hit q e k refs i) (handle_cache_hit q e k refs i)) /\
+  (forall q e k f cc, peq (src_background_revalidate q e k f cc) (background_revalidate q e k f cc)) /\
+  (forall ctx q rep, peq (src_handle_validation_response ctx q rep) (handle_validation_response ctx q rep)).
+Proof. repeat split; [exact tie_round_trip|exact tie_handle_unrecognized_method|exact tie_handle_cache_miss|exact tie_handle_cache_hit|exact tie_background_revalidate|exact tie_handle_validation_response]. Qed.
+Print Assumptions C16_source_effects.
